@@ -9,7 +9,7 @@ ENV = dict(os.environ, GOFLAGS="-mod=mod -trimpath", GOPROXY="off", GOSUMDB="off
 ENV.pop("GOWORK", None)
 
 def sh(cmd, cwd, check=False):
-    r = subprocess.run(cmd, cwd=cwd, env=ENV, capture_output=True, text=True, shell=isinstance(cmd, str))
+    r = subprocess.run(cmd, cwd=cwd, env=ENV, capture_output=True, text=True, errors="replace", shell=isinstance(cmd, str))
     if check and r.returncode != 0:
         raise SystemExit("FAILED: %s\n%s\n%s" % (cmd, r.stdout[-2000:], r.stderr[-2000:]))
     return r
@@ -63,7 +63,7 @@ def main():
         if any(rc != 0 for rc, _ in wo.values()):
             raise SystemExit("demo does not pass without the change: %s" % wo)
         # which checks catch it
-        t = subprocess.run([sys.executable, os.path.join(HERE, "trypatch.py"), os.path.abspath(patch)], capture_output=True, text=True)
+        t = subprocess.run([sys.executable, os.path.join(HERE, "trypatch.py"), os.path.abspath(patch)], capture_output=True, text=True, errors="replace")
         fired = t.stdout.splitlines()[0] if t.stdout else "?"
         rules = sorted(set(l.split()[1] for l in t.stdout.splitlines()[1:] if len(l.split()) > 1))
         ran.append("escalint (all 20 checks) on a scratch copy with the change: " + fired)
